@@ -16,6 +16,7 @@ open Jmes Jmes.Parser Jmes.Pratt Jmes.Grammar
 /-! ## An induction principle for the nested inductive `PTree` -/
 
 section Ind
+set_option linter.unusedSectionVars false
 variable {P : PTree → Prop}
   (h_icur : P .icur) (h_atom : ∀ t, P (.atom t)) (h_paren : ∀ t, P t → P (.paren t)) (h_not : ∀ t, P t → P (.not t))
   (h_neg : ∀ tok t, P t → P (.neg tok t)) (h_pos : ∀ t, P t → P (.pos t))
@@ -71,5 +72,129 @@ theorem PTree.indKV : ∀ kvs : List (Token × PTree), ∀ kv ∈ kvs, P kv.2
     · exact PTree.indKV xs kv h
 end
 end Ind
+
+
+/-! ## Small facts about the grammar's definitions -/
+
+theorem isIcur_eq {l : PTree} (h : l.isIcur = true) : l = .icur := by
+  cases l <;> first | rfl | cases h
+
+theorem optNode_icur (n : INode) : optNode .icur n = none := rfl
+
+theorem optNode_of_ne {l : PTree} (h : l.isIcur = false) (n : INode) : optNode l n = some n := by
+  simp [optNode, h]
+
+theorem lmin_of_ne {l : PTree} (h : l.isIcur = false) (lvl ll : Nat) : lmin lvl l ll = min lvl ll := by
+  simp [lmin, h]
+
+theorem binLevel_mkBin {t : TokenType} {l : Nat} (h : binLevel t = some l) : mkBin t = some (binNode t) := by
+  cases t <;> simp [binLevel] at h <;> rfl
+
+theorem binLevel_range {t : TokenType} {l : Nat} (h : binLevel t = some l) : 2 ≤ l ∧ l ≤ 7 := by
+  cases t <;> simp [binLevel] at h <;> subst h <;> decide
+
+/-- every level of a well-formed tree is at least 2 (so every tree can be read at power 1) -/
+theorem llevel_ge : ∀ (b : Bool) (t : PTree), wp b t = true → 2 ≤ llevel t
+  | b, .bin op l r, h => by
+    simp only [wp] at h
+    split at h
+    · cases h
+    · rename_i lvl hl
+      simp only [Bool.and_eq_true, Bool.not_eq_true', decide_eq_true_eq] at h
+      have := llevel_ge b l h.1.1.1.2
+      simp only [llevel, hl, Option.getD_some, lmin_of_ne h.1.1.1.1]
+      have := (binLevel_range hl).1
+      omega
+  | b, .dotId l r, h => by
+    simp only [llevel, lmin]
+    split
+    · decide
+    · rename_i hi
+      simp only [wp, hi, Bool.false_eq_true, if_false, Bool.and_eq_true] at h
+      have := llevel_ge b l h.1.1.1.1
+      simp only [lvlDot]; omega
+  | b, .dotList l es, h => by
+    simp only [llevel, lmin]
+    split
+    · decide
+    · rename_i hi
+      simp only [wp, hi, Bool.false_eq_true, if_false, Bool.and_eq_true] at h
+      have := llevel_ge b l h.1.1.1
+      simp only [lvlDot]; omega
+  | b, .dotHash l kvs, h => by
+    simp only [llevel, lmin]
+    split
+    · decide
+    · rename_i hi
+      simp only [wp, hi, Bool.false_eq_true, if_false, Bool.and_eq_true] at h
+      have := llevel_ge b l h.1.1.1
+      simp only [lvlDot]; omega
+  | b, .dotStarList l, h => by
+    simp only [llevel, lmin]
+    split
+    · decide
+    · rename_i hi
+      simp only [wp, hi, Bool.false_eq_true, if_false, Bool.and_eq_true] at h
+      have := llevel_ge b l h.1
+      simp only [lvlDot]; omega
+  | b, .index l n, h => by
+    simp only [llevel, lmin]
+    split
+    · decide
+    · rename_i hi
+      simp only [wp, hi, Bool.false_eq_true, if_false, Bool.and_eq_true] at h
+      have := llevel_ge b l h.1.1
+      simp only [lvlBracket]; omega
+  | b, .star l rhs, h => by
+    simp only [llevel, lmin]
+    split
+    · decide
+    · rename_i hi
+      simp only [wp, hi, Bool.false_eq_true, if_false, Bool.and_eq_true] at h
+      have := llevel_ge b l h.1.1
+      simp only [lvlBracket]; omega
+  | b, .ostar l rhs, h => by
+    simp only [llevel, lmin]
+    split
+    · decide
+    · rename_i hi
+      simp only [wp, hi, Bool.false_eq_true, if_false, Bool.and_eq_true] at h
+      have := llevel_ge b l h.1.1
+      simp only [lvlDot]; omega
+  | b, .flat l rhs, h => by
+    simp only [llevel, lmin]
+    split
+    · decide
+    · rename_i hi
+      simp only [wp, hi, Bool.false_eq_true, if_false, Bool.and_eq_true] at h
+      have := llevel_ge b l h.1.1
+      simp only [lvlFlatten]; omega
+  | b, .filt l c rhs, h => by
+    simp only [llevel, lmin]
+    split
+    · decide
+    · rename_i hi
+      simp only [wp, hi, Bool.false_eq_true, if_false, Bool.and_eq_true] at h
+      have := llevel_ge b l h.1.1.1
+      simp only [lvlFilter]; omega
+  | b, .slice l a bb c rhs, h => by
+    simp only [llevel, lmin]
+    split
+    · decide
+    · rename_i hi
+      simp only [wp, hi, Bool.false_eq_true, if_false, Bool.and_eq_true] at h
+      have := llevel_ge b l h.1.1.1
+      simp only [lvlBracket]; omega
+  | _, .icur, _ => by decide
+  | _, .atom _, _ => by decide
+  | _, .paren _, _ => by decide
+  | _, .not _, _ => by decide
+  | _, .neg _ _, _ => by decide
+  | _, .pos _, _ => by decide
+  | _, .call _ _, _ => by decide
+  | _, .ref _, _ => by decide
+  | _, .letIn _ _, _ => by decide
+  | _, .multiList _, _ => by decide
+  | _, .multiHash _, _ => by decide
 
 end Jmes.GrammarF0
